@@ -224,7 +224,7 @@ def _run_sparse(case, j):
         j.ok("trace scaling off: scale_ == 1", est.scale_ == 1.0, est.scale_)
     est2 = _with_a_past(j, case, SparseKernelCenterer, n, len(Fa), "2")
     T2 = est2.fit_transform(Knm.copy(), Kmm.copy(), sample_weight=None if w is None else w.copy())
-    j.close("fit_transform == fit followed by transform", T2, T, 1e-12 * mag / s)
+    j.close("fit_transform == fit followed by transform", T2, T, 1e-10 * mag / s)
     form = case.get("xform", "C")
     if form == "list":
         form = "C"  # documented for numpy arrays only (no input validation: a list has no .shape)
